@@ -218,3 +218,145 @@ pub open spec fn ext_spec(p: Seq<char>) -> Option<Seq<char>> {
     let i = last_index_of(f, '.');
     if i <= 0 { None } else { Some(f.subrange(i + 1, f.len() as int)) }
 }
+
+pub proof fn lemma_all_names_drop_last(cs: Seq<Comp>)
+    requires all_names(cs), cs.len() > 0
+    ensures all_names(cs.drop_last())
+{
+    assert forall|i: int| 0 <= i < cs.drop_last().len() implies is_name(#[trigger] cs.drop_last()[i]) by { assert(cs.drop_last()[i] == cs[i]); }
+}
+pub proof fn lemma_parent_canonical(p: Seq<char>)
+    requires canonical(p)
+    ensures canonical(parent_spec(p))
+{
+    let cs = choose|cs: Seq<Comp>| all_names(cs) && p == render(cs);
+    if cs.len() > 0 {
+        lemma_parent_of_render(cs);
+        lemma_all_names_drop_last(cs);
+    } else {
+        lemma_parent_of_empty();
+        assert(p =~= Seq::<char>::empty());
+    }
+}
+
+// ---- confinement lemmas (ported from design-notes A9/A10)
+pub proof fn lemma_first_index_concat(a: Seq<char>, r: Seq<char>, c: char)
+    requires !a.contains(c)
+    ensures first_index_of(a + seq![c] + r, c) == a.len()
+    decreases a.len()
+{
+    let s = a + seq![c] + r;
+    if a.len() == 0 {
+        assert(s[0] == c);
+    } else {
+        assert(s[0] == a[0]);
+        assert(a[0] != c);
+        let a2 = a.skip(1);
+        assert(!a2.contains(c)) by { if a2.contains(c) { let j = choose|j: int| 0 <= j < a2.len() && a2[j] == c; assert(a[j + 1] == c); } }
+        assert(s.skip(1) =~= a2 + seq![c] + r);
+        lemma_first_index_concat(a2, r, c);
+    }
+}
+pub proof fn lemma_split_cons(a: Seq<char>, r: Seq<char>, c: char)
+    requires !a.contains(c)
+    ensures split_on(a + seq![c] + r, c) == seq![a] + split_on(r, c)
+{
+    let s = a + seq![c] + r;
+    lemma_first_index_concat(a, r, c);
+    assert(s.subrange(0, a.len() as int) =~= a);
+    assert(s.subrange(a.len() as int + 1, s.len() as int) =~= r);
+}
+pub proof fn lemma_split_single(a: Seq<char>, c: char)
+    requires !a.contains(c)
+    ensures split_on(a, c) == seq![a]
+{
+    lemma_first_index_of(a, c);
+    if first_index_of(a, c) >= 0 { assert(a[first_index_of(a, c)] == c); }
+}
+pub proof fn lemma_render_left(qs: Seq<Comp>)
+    requires qs.len() > 0
+    ensures render(qs) == seq!['/'] + qs[0] + render(qs.skip(1))
+    decreases qs.len()
+{
+    if qs.len() == 1 {
+        assert(qs.drop_last() =~= Seq::<Comp>::empty());
+        assert(qs.skip(1) =~= Seq::<Comp>::empty());
+        assert(render(qs) =~= seq!['/'] + qs[0] + render(qs.skip(1)));
+    } else {
+        let dl = qs.drop_last();
+        lemma_render_left(dl);
+        assert(dl[0] == qs[0]);
+        assert(dl.skip(1) =~= qs.skip(1).drop_last());
+        assert(qs.skip(1).last() == qs.last());
+        assert(render(qs.skip(1)) == render(qs.skip(1).drop_last()) + seq!['/'] + qs.last());
+        assert(render(qs) =~= seq!['/'] + qs[0] + render(qs.skip(1)));
+    }
+}
+/// relative form of a canonical path: drop the leading '/'
+pub open spec fn rel(qs: Seq<Comp>) -> Seq<char> { render(qs).skip(1) }
+pub proof fn lemma_split_rel(qs: Seq<Comp>)
+    requires all_names(qs), qs.len() > 0
+    ensures split_on(rel(qs), '/') == qs, rel(qs).len() > 0, rel(qs)[0] != '/', rel(qs).last() != '/'
+    decreases qs.len()
+{
+    lemma_render_left(qs);
+    assert(is_name(qs[0]));
+    let tail = qs.skip(1);
+    assert(rel(qs) =~= qs[0] + render(tail));
+    if qs.len() == 1 {
+        assert(tail =~= Seq::<Comp>::empty());
+        assert(rel(qs) =~= qs[0]);
+        lemma_split_single(qs[0], '/');
+        assert(qs =~= seq![qs[0]]);
+        assert(qs[0].last() != '/') by { assert(qs[0][qs[0].len() - 1] == qs[0].last()); }
+        assert(qs[0][0] != '/');
+    } else {
+        assert forall|i: int| 0 <= i < tail.len() implies is_name(#[trigger] tail[i]) by { assert(tail[i] == qs[i + 1]); }
+        lemma_render_left(tail);
+        lemma_split_rel(tail);
+        assert(render(tail) =~= seq!['/'] + rel(tail));
+        assert(rel(qs) =~= qs[0] + seq!['/'] + rel(tail));
+        lemma_split_cons(qs[0], rel(tail), '/');
+        assert(qs =~= seq![qs[0]] + tail);
+        assert(rel(qs)[0] == qs[0][0]); assert(qs[0][0] != '/');
+        assert(rel(qs).last() == rel(tail).last());
+    }
+}
+pub proof fn lemma_resolve_names(start: Seq<Comp>, qs: Seq<Comp>, n: int)
+    requires all_names(qs), 0 <= n <= qs.len()
+    ensures resolve_n(start, qs, n) == start + qs.subrange(0, n)
+    decreases n
+{
+    if n == 0 {
+        assert(start + qs.subrange(0, 0) =~= start);
+    } else {
+        lemma_resolve_names(start, qs, n - 1);
+        assert(is_name(qs[n - 1]));
+        assert((start + qs.subrange(0, n - 1)).push(qs[n - 1]) =~= start + qs.subrange(0, n));
+    }
+}
+pub proof fn lemma_render_concat(a: Seq<Comp>, b: Seq<Comp>)
+    ensures render(a + b) == render(a) + render(b)
+    decreases b.len()
+{
+    if b.len() == 0 {
+        assert(a + b =~= a);
+        assert(render(a) + render(b) =~= render(a));
+    } else {
+        lemma_render_concat(a, b.drop_last());
+        assert((a + b).drop_last() =~= a + b.drop_last());
+        assert((a + b).last() == b.last());
+        assert(render(a + b) =~= render(a) + render(b));
+    }
+}
+/// C07 confinement lemma: joining the relative form of a canonical path onto a base appends its components
+pub proof fn lemma_join_of_relative(base: Seq<Comp>, qs: Seq<Comp>)
+    requires all_names(qs), qs.len() > 0
+    ensures join_spec(base, rel(qs)) == Some(base + qs)
+{
+    lemma_split_rel(qs);
+    lemma_resolve_names(base, qs, qs.len() as int);
+    assert(qs.subrange(0, qs.len() as int) =~= qs);
+}
+
+
